@@ -10,10 +10,12 @@ every Go output has to be explained by some model execution (DESIGN.md §3.3).
 import Uquic.Oracle.Frame
 import Uquic.Model.UQuic.Frames
 import Uquic.Model.UQuic.Scrambler
+import Uquic.Model.UQuic.Planned
 import Uquic.Spec.Framing
 import Uquic.Spec.FramingMon
 
 open Uquic.Oracle Uquic.Model.UQuic.Frames Uquic.Model.UQuic.Scrambler Uquic.Spec.Framing Uquic.Spec.FramingMon
+open Uquic.Model.UQuic.Planned (PF)
 
 /-! ### text -/
 
@@ -189,10 +191,18 @@ structure Ghost where
   sniLen : Int := 0
   echPos : Int := 0
 
+/-- ghost of a planned-flight session, from the ops and the implementation's answers only -/
+structure PFGhost where
+  released : Bool := false
+  /-- per Pack call: the CRYPTO ranges the packet carried (reference reader); `none`: nothing packed or lost -/
+  delivered : List (Option (List (Nat × Nat))) := []
+
 structure St where
   src : List UInt8 := []
   cs : Option CS := none
   g : Ghost := {}
+  pf : Option PF := none
+  pg : PFGhost := {}
 
 def sliceOf (src : List UInt8) (lo n : Int) : List UInt8 :=
   let lo := if lo < 0 then 0 else if lo > src.length then (src.length : Int) else lo
@@ -528,6 +538,111 @@ def step (s : St) (op impl : String) : St × StepOut :=
       let tags := ["mip:" ++ kind] ++ [match out with | .ok _ => "mip:ok" | .err e => "mip:E:" ++ e | _ => "mip:panic"] ++
         (if planned then ["mip:planned"] else [])
       (s, { model := model, tags := tags, fails := fails })
+  | ["pf", "new", kind, spec, sizes, _maxSize, draws] =>
+    let _ := sizes
+    let mfb := parseInts ((implField impl "mfb=").getD "-")
+    let rb := intOf ((implField impl "rb=").getD "0")
+    let env := s!" mfb={(implField impl "mfb=").getD ""} rb={rb}"
+    let implPlan : Option (List (List UInt8)) := (implField impl "plan=").map unhexList
+    let d := parseDraws draws
+    let built : Outcome (List (List UInt8)) :=
+      if s.src.isEmpty then .ok []                    -- planInitialFlight waits: nothing is queued
+      else if kind == "ff" then ffBuild (if spec == "!" then [] else (spec.splitOn "/").map parseFrames) s.src
+      else
+        let dl := parseRFDatagrams spec
+        let (perms, unresolved, _) := recoverFlightPerms dl s.src d (implPlan.getD [])
+        match rffBuild dl s.src d perms, implPlan with
+        | .ok ps, some ip => if unresolved then Outcome.ok ip else .ok ps
+        | o, _ => o
+    let planned : Outcome (List (List UInt8)) := match built with
+      | .ok ps =>
+        if s.src.isEmpty then .ok []
+        else match validate ps mfb s.src.length with
+          | .ok _ => .ok ps
+          | .err e => .err e
+          | .panic => .panic
+          | .wrap => .wrap
+      | o => o
+    let (model, pf) : String × PF := match planned with
+      | .ok ps => ("ok" ++ env ++ " plan=" ++ hexList ps, { payloads := ps, rb := rb })
+      | .err e => ("E:" ++ e ++ env, { rb := rb })
+      | .panic => ("PANIC", { rb := rb })
+      | .wrap => ("WRAP", { rb := rb })
+    -- a released flight must carry the ClientHello (the flight property, on the real packer's plan)
+    let fails : List Fail := match implPlan with
+      | some ps => if !s.src.isEmpty && !carriesAt s.src 0 0 s.src.length ps then
+          [("pf_plan_carries", "-", s!"planned flight of {ps.length} datagrams does not carry the {s.src.length} byte ClientHello")] else []
+      | none => []
+    let tags := ["pf:new:" ++ kind] ++ [match planned with | .ok _ => "pf:planned" | .err e => "pf:E:" ++ ((e.splitOn "@").headD "") | _ => "pf:panic"]
+    ({ s with pf := some pf, pg := { released := implPlan.isSome && !s.src.isEmpty } }, { model := model, tags := tags, fails := fails })
+  | ["pf", "pack"] =>
+    match s.pf with
+    | none => (s, { model := "skip" })
+    | some pf =>
+      let (pf', out) := Uquic.Model.UQuic.Planned.pack pf
+      let fmtReg (reg : List (Nat × List UInt8)) : String :=
+        if reg.isEmpty then "-" else ";".intercalate (reg.map fun c => s!"{c.1}:{hx c.2}")
+      let stripZeros (b : List UInt8) : List UInt8 := (b.reverse.dropWhile (· == 0)).reverse
+      -- the packer appends PADDING up to the planned packet size (sizes are C10's business): payloads
+      -- are compared up to trailing zero bytes
+      let implP := unhex ((implField impl "p=").getD "-")
+      let model := match out with
+        | .none => "none"
+        | .panic => "PANIC"
+        | .pkt p reg =>
+          let shown := if iw.headD "" == "pkt" && stripZeros implP == stripZeros p && implP.length ≥ p.length then implP else p
+          "pkt p=" ++ hx shown ++ " reg=" ++ fmtReg reg
+      -- monitors on what the real packer did
+      let (pg, fails) : PFGhost × List Fail := Id.run do
+        let mut pg := s.pg
+        let mut fails : List Fail := []
+        if iw.headD "" == "pkt" then
+          let p := unhex ((implField impl "p=").getD "-")
+          let regText := (implField impl "reg=").getD "-"
+          let reg : List (Nat × List UInt8) := if regText == "-" then [] else (regText.splitOn ";").filterMap fun t =>
+            match t.splitOn ":" with
+            | [o, h] => some (natOf o, unhex h)
+            | _ => none
+          match readFrames p with
+          | none =>
+            fails := fails ++ [("pf_payload_legal", "-", "Initial packet payload is not a sequence of PADDING/PING/CRYPTO frames")]
+            pg := { pg with delivered := pg.delivered ++ [some []] }
+          | some fs =>
+            let carried := cryptoOf fs
+            -- loss recovery must remember exactly what the datagram carried: one frame per CRYPTO
+            -- range, each with its own offset and bytes
+            if reg != carried then
+              fails := fails ++ [("pf_registered_is_carried", "-",
+                s!"carried {carried.map fun c => (c.1, c.2.length)} but registered {reg.map fun c => (c.1, c.2.length)}")]
+            if !(reg.all fun c => sliceEq s.src 0 c.1 c.2) then
+              fails := fails ++ [("pf_registered_truthful", "-", "a registered CRYPTO frame does not hold the ClientHello's bytes of its offset")]
+            if !(carried.all fun c => sliceEq s.src 0 c.1 c.2) then
+              fails := fails ++ [("pf_carried_truthful", "-", "a CRYPTO frame on the wire does not hold the ClientHello's bytes of its offset")]
+            pg := { pg with delivered := pg.delivered ++ [some (rangesOf carried)] }
+        else
+          pg := { pg with delivered := pg.delivered ++ [none] }
+          -- nothing left to send: what was not lost must be the whole ClientHello
+          if iw.headD "" == "none" && pg.released then
+            let rs := (pg.delivered.filterMap id).flatten
+            if !coversAll rs 0 s.src.length then
+              fails := fails ++ [("pf_retransmission_covers", "-",
+                s!"nothing left to send, but the datagrams that were not lost do not cover the {s.src.length} byte ClientHello")]
+        return (pg, fails)
+      let tags := [match out with
+        | .none => "pf:pack-none" | .panic => "pf:pack-panic"
+        | .pkt _ reg => if pf.payloads.isEmpty then (if reg.length > 1 then "pf:retransmit-multi" else "pf:retransmit") else
+            (if reg.length > 1 then "pf:planned-multi-range" else "pf:planned-datagram")] ++
+        (if !pf.payloads.isEmpty && !pf.queue.isEmpty then ["pf:loss-during-flight"] else []) ++
+        (if pf.payloads.isEmpty && pf'.queue.length > 0 && !pf.queue.isEmpty then ["pf:split-or-leftover"] else [])
+      ({ s with pf := some pf', pg := pg }, { model := model, tags := tags, fails := fails })
+  | ["pf", "lose", k] =>
+    match s.pf with
+    | none => (s, { model := "skip" })
+    | some pf =>
+      let k := natOf k
+      let (pf', ok) := Uquic.Model.UQuic.Planned.lose pf k
+      let pg := if iw.headD "" == "ok" then { s.pg with delivered := s.pg.delivered.set k none } else s.pg
+      ({ s with pf := some pf', pg := pg }, { model := if ok then "ok" else "skip", tags := [if ok then "pf:lose" else "pf:lose-skip"] })
   | ["cs", "new", kind] =>
     let cs := if kind == "c" then newInitial true else if kind == "s" then newInitial false else newBase
     ({ s with cs := some cs, g := { client := kind == "c" } }, { model := "ok" ++ csSuffix (some cs), tags := ["cs:new:" ++ kind] })
